@@ -1,3 +1,4 @@
 """Import every module that registers operations."""
 from dsim import ops_addr  # noqa: F401
 from dsim import ops_fault  # noqa: F401
+from dsim import ops_merge  # noqa: F401
